@@ -1,6 +1,7 @@
 package main
 
 import (
+	"os"
 	"strconv"
 	"strings"
 
@@ -195,6 +196,43 @@ func randVal(c *hx.Ctx, big bool) string {
 	return "R:" + hexOf(randBytes(c, n))
 }
 
+// memAvailableMiB reads MemAvailable from /proc/meminfo (-1 if unknown)
+func memAvailableMiB() int {
+	b, err := os.ReadFile("/proc/meminfo")
+	if err != nil {
+		return -1
+	}
+	for _, l := range strings.Split(string(b), "\n") {
+		if strings.HasPrefix(l, "MemAvailable:") {
+			f := strings.Fields(l)
+			if len(f) >= 2 {
+				kb, err := strconv.Atoi(f[1])
+				if err == nil {
+					return kb / 1024
+				}
+			}
+		}
+	}
+	return -1
+}
+
+// a value for the concurrent phase: mostly what goes through the 7-bit encoder (ints of every width, length prefixes)
+func concVal(c *hx.Ctx) string {
+	switch c.Rng.Intn(10) {
+	case 0, 1, 2, 3:
+		return "v:" + strconv.FormatInt(int64(int32(uint32(c.Rng.U64())>>uint(c.Rng.Intn(32)))), 10)
+	case 4:
+		return "v:" + strconv.FormatInt(int64(randI32(c)), 10)
+	case 5, 6:
+		return "S:" + hexOf(randBytes(c, c.Rng.Pick([]int{0, 1, 5, 20, 127, 128, 129, 300})))
+	case 7:
+		return "B:" + hexOf(randBytes(c, c.Rng.Pick([]int{1, 3, 130, 200})))
+	case 8:
+		return "i:" + strconv.FormatInt(int64(randI32(c)), 10)
+	}
+	return randVal(c, false)
+}
+
 func gen(c *hx.Ctx) {
 	// 1. bool, byte: exhaustive
 	p := &packer{c: c, n: 32, class: "small"}
@@ -321,6 +359,34 @@ func gen(c *hx.Ctx) {
 		}
 		c.Emit("seq | %s%s", t, hexOf(randBytes(c, randLen(c, i%c.Budget(100, 400) == 0))))
 		c.Count("bytes_random")
+	}
+
+	// 5b. concurrency: 8 goroutines, each with its own private stream / writer / reader, repeat their own sequence R times at
+	// the same time; bytes and read-back values must equal the sequential run of the same sequence
+	for i := 0; i < c.Budget(16, 120); i++ {
+		bodies := make([]string, 8)
+		for g := range bodies {
+			n := c.Rng.Range(6, 24)
+			toks := make([]string, n)
+			for j := range toks {
+				toks[j] = concVal(c)
+			}
+			bodies[g] = strings.Join(toks, " ; ")
+		}
+		c.Emit("conc %d | %s", c.Budget(10000, 30000), strings.Join(bodies, " || "))
+		c.Count("concurrent_8_private_streams")
+	}
+
+	// 5c. giant payloads (thorough tier only, about 1 GiB per case): the 5-byte length prefix starts at 2^28 bytes
+	if c.Thorough() {
+		if avail := memAvailableMiB(); avail >= 0 && avail < 3072 {
+			c.Count("giant_payload_skipped_less_than_3GiB_available")
+		} else {
+			for _, g := range []string{"B 268435455", "B 268435456", "S 268435456", "B 268435457"} {
+				c.Emit("giant %s %d", g, c.Rng.U64()>>16)
+				c.Count("giant_payload_2^28")
+			}
+		}
 	}
 
 	// 6. random typed sequences
